@@ -1,5 +1,6 @@
 """C02 - composition arithmetic: atoms, mass, charge and mass fractions are additive."""
 from contracts import formulas as F
+from contracts import core as K
 
 ID = "C02"
 LEVEL = "proof"
@@ -21,12 +22,13 @@ EXPLANATION = (
 def units(tier):
     return [F.U_COUNT_ATOMS, F.U_ATOMS, F.U_MASS, F.U_CHARGE, F.U_MOLMASS, F.U_MASS_FRACTION,
             F.L_SUM_HOMOGENEOUS, F.L_FRACTIONS, F.L_CONCAT, F.U_ADD, F.U_ADD_BAD, F.U_IADD,
-            F.U_RMUL, F.U_RMUL_BAD, F.U_ION_MASS] + [F.U_IMMUTABLE_REC, F.L_DEN_CONGRUENCE, F.U_HILL_NOTATION, F.L_DEN_PERMUTATION] + F.U_FORMULA_KINDS + F.U_FORMULA_OF_FORMULA + [F.U_HILL]
+            F.U_RMUL, F.U_RMUL_BAD, F.U_ION_MASS, K.L_ATOM_IDENTITY] + [F.U_IMMUTABLE_REC, F.L_DEN_CONGRUENCE, F.U_HILL_NOTATION, F.L_DEN_PERMUTATION] + F.U_FORMULA_KINDS + F.U_FORMULA_OF_FORMULA + [F.U_HILL]
 
 
 def runner_tasks(tier):
     return [{"module": "c02", "task": "sample", "kind": "bounded", "clause": "all clauses, in floats"},
-            {"module": "c02", "task": "init_kinds", "kind": "bounded", "clause": "initializer kinds of formula()"}]
+            {"module": "c02", "task": "init_kinds", "kind": "bounded", "clause": "initializer kinds of formula()"},
+            {"module": "stateful", "task": "C02", "name": "stateful", "kind": "bounded", "clause": "returned containers are the caller's; ion and isotope-ion of one element kept apart; history independence"}]
 
 
 REPLAY = {"module": "c02", "task": "replay"}
